@@ -1801,7 +1801,11 @@ MANIFEST_ENTRY = {
              'points r=0, u=0, u=1, x=+-1, rho=0; every sequence argument (coefficients s / cs / cns / coefs / cm0 / ams / bms and their inner lists, '
              'orders ns of the nine *_der_seq routines, nms of zernike_nm_der_seq and its rows) as list / tuple / ndarray / generator / '
              'iterator / map / zip / chain / reversed / dict views / deque / range, result = result for the same items as a list (item '
-             'seqarg); gen_iterable_arguments: translated fact that these arguments are materialised first or read exactly once.'),
+             'seqarg); gen_iterable_arguments: translated fact that these arguments are materialised first or read exactly once.'
+             ' Before recognition the translator normalises the source soundly (tools/pysym.py): same-module private helpers without '
+             'loops are inlined (helpers with branches by forking paths), view aliases of table rows and hoisted index arithmetic are '
+             'propagated, locals are expanded by path-wise symbolic execution or renamed by role, conditional expressions are '
+             'treated as if/else; a shape that is still not understood degrades the tie (TIE-DEGRADED), it never turns it red.'),
     'note': ('partial: the Python loops / NumPy plumbing around the translated steps are tied to the model by execution, not by proof; '
              'the *_der_seq sweeps and cheby*_der are compared, not separately proved or translated; the structural facts are opaque '
              'Booleans for Lean; exact Fraction / polynomial-object streams are skipped with a note when the implementation does not '
